@@ -227,6 +227,22 @@ impl FileLogWriterBuilder {
             return Err(FlexiLoggerError::OutputBadDirectory);
         }
 
+        // chrono panics when it has to render a format that it cannot interpret
+        if let Some(RotationConfig {
+            naming: Naming::TimestampsCustomFormat { format, .. },
+            ..
+        }) = self.o_rotation_config
+        {
+            if chrono::format::StrftimeItems::new(format)
+                .any(|item| item == chrono::format::Item::Error)
+            {
+                return Err(FlexiLoggerError::OutputIo(std::io::Error::new(
+                    std::io::ErrorKind::InvalidInput,
+                    "the format for the timestamp infix is not a valid strftime format",
+                )));
+            }
+        }
+
         #[cfg(feature = "async")]
         let cleanup_in_background_thread = if let WriteMode::AsyncWith {
             pool_capa: _,
